@@ -272,7 +272,7 @@ func c19FSReplay(i int, raw json.RawMessage) Result {
 		os.WriteFile(dir+"-sib/a/a", []byte("SIB"), 0o644)
 		l := jet.NewOSFileSystemLoader(dir)
 		for _, rel := range []string{"a", "b", "a/a", "a/b"} {
-			for _, name := range []string{dir + "/" + rel, dir + "-sib/" + rel} { // clean absolute names, as a Set hands them over
+			for _, name := range []string{dir + "/" + rel, dir + "-sib/" + rel, `/..\` + filepath.Base(dir) + `-sib\` + strings.ReplaceAll(rel, "/", `\`)} { // clean absolute names, as a Set hands them over
 				if l.Exists(name) {
 					return Result{Sig: map[string]interface{}{"loader": "os", "shape": "single-own-directory-in-name", "query_is_dir_somewhere": false}, Key: key,
 						Observed: true, Expected: false,
